@@ -1,5 +1,6 @@
 import JrpcVerif.Theorems.C15
 import JrpcVerif.Theorems.C15Codes
+import JrpcVerif.Theorems.C15Wire
 #print axioms Jrpc.Gen.c15_translator_ok
 #print axioms Jrpc.Gen.c15_code_rt_int
 #print axioms Jrpc.Gen.c15_code_rt_named
@@ -10,3 +11,16 @@ import JrpcVerif.Theorems.C15Codes
 #print axioms Jrpc.c15_id_bytes
 #print axioms Jrpc.c15_subid_rt
 #print axioms Jrpc.c15_id_kind_preserved
+#print axioms Jrpc.stable_encodeErrObj
+#print axioms Jrpc.c15_response_rt
+#print axioms Jrpc.c15_emitted_valid
+#print axioms Jrpc.c15_request_rt
+#print axioms Jrpc.c15_notification_rt
+#print axioms Jrpc.c15_parser_rejects_duplicates
+#print axioms Jrpc.c15_parser_requires
+#print axioms Jrpc.c15_parser_ignores_unknown
+#print axioms Jrpc.c15_parser_jsonrpc
+#print axioms Jrpc.stable_encodeNat
+#print axioms Jrpc.stable_encodeInt
+#print axioms Jrpc.stable_object
+#print axioms Jrpc.decodeI32_encodeInt
